@@ -4,7 +4,8 @@
    process on that state; two tables are equivalent (teq) when every lookup gives the same differ, which
    is all a diff can observe.  The differ itself is a function of (configuration, a, b) in the model
    (Diff/GenericDiff.v), tied to the code by exact correspondence in C01/C14 and, here, across histories. *)
-From Coq Require Import List Bool.
+From Coq Require Import List Bool String.
+From NB Require Import Diff.Codec.
 From NB Require Import Base.Json Diff.GenericDiff Sys.History Sys.HistoryProofs Gen.HistoryFacts.
 From NB Require Import Sys.Flags.
 Import ListNotations.
@@ -52,6 +53,18 @@ Theorem flags_all_six_resets : forall t p,
   = lookup (step [] (OpTargets true true true true true true)) p.
 Proof. intros t p Hp. rewrite flags_all_six. exact (targets_determined_l t true true true true true true p Hp). Qed.
 Print Assumptions flags_all_six_resets.
+
+(* non-vacuity: /cells/*/source is a path the flags govern; after `-s` (sources only) followed by all six flags the source
+   differ is the default one again, while after `-s` alone outputs are ignored *)
+Example flags_all_six_example :
+  mfind (of_ascii "/cells/*/outputs"%string) (targets_mapping true true true true true true) <> None
+  /\ lookup (run_history [flags_op (Some true) None None None None None;
+                          flags_op (Some true) (Some true) (Some true) (Some true) (Some true) (Some true)])
+            (of_ascii "/cells/*/outputs"%string)
+     = lookup [] (of_ascii "/cells/*/outputs"%string)
+  /\ lookup (run_history [flags_op (Some true) None None None None None]) (of_ascii "/cells/*/outputs"%string)
+     <> lookup [] (of_ascii "/cells/*/outputs"%string).
+Proof. split; [vm_compute; discriminate | split; [vm_compute; reflexivity | vm_compute; discriminate]]. Qed.
 
 Theorem flags_subsets : forall s o a m i d,
   orb s (orb o (orb a (orb m (orb i d)))) = true ->
